@@ -272,8 +272,11 @@ class Bag(Factory, Container):
             else:
                 raise JsonFormatException(json["name"], "Bag.name")
 
-            if isinstance(json["range"], basestring):
+            if isinstance(json["range"], basestring) and (
+                json["range"] in ("S", "N") or (json["range"][:1] == "N" and json["range"][1:].isdigit() and int(json["range"][1:]) > 0)
+            ):
                 range = json["range"]
+                dimension = int(range[1:]) if len(range) > 1 else 0
             else:
                 raise JsonFormatException(json["range"], "Bag.range")
 
@@ -295,11 +298,12 @@ class Bag(Factory, Container):
                                 v = nv["v"]
                             else:
                                 raise JsonFormatException(nv["v"], f"Bag.values {i} v")
-                        elif nv["v"] in ("nan", "inf", "-inf") or isinstance(nv["v"], numbers.Real):
-                            v = floatOrNan(nv["v"])
-                        elif isinstance(nv["v"], basestring):
-                            v = nv["v"]
-                        elif isinstance(nv["v"], (list, tuple)):
+                        elif range == "N":
+                            if nv["v"] in ("nan", "inf", "-inf") or isinstance(nv["v"], numbers.Real):
+                                v = floatOrNan(nv["v"])
+                            else:
+                                raise JsonFormatException(nv["v"], f"Bag.values {i} v")
+                        elif isinstance(nv["v"], (list, tuple)) and len(nv["v"]) == dimension:
                             for j, d in enumerate(nv["v"]):
                                 if d not in ("nan", "inf", "-inf") and not isinstance(d, numbers.Real):
                                     raise JsonFormatException(d, f"Bag.values {i} v {j}")
@@ -307,6 +311,9 @@ class Bag(Factory, Container):
                         else:
                             raise JsonFormatException(nv["v"], f"Bag.values {i} v")
 
+                        if v in values:
+                            # toJson writes every value once: a second entry would silently replace the first
+                            raise JsonFormatException(nv["v"], f"Bag.values {i} v (repeated)")
                         values[v] = n
 
                     else:
